@@ -81,7 +81,7 @@ Proof.
   unfold tf_start, pipeline_start, start_values.
   rewrite (horizon_guess_args (o_T oc) calls args GbigT pvals HT HkT).
   rewrite (horizon_guess_args (o_t0 oc) calls args Gt0 pvals Ht0 Hkt0).
-  cbn [s_X s_U s_V s_VC s_VP s_T s_t0 s_Xi s_Xc s_Zc].
+  cbn [s_X s_U s_V s_VC s_VP s_T s_t0 s_Xi s_Xc s_Zc s_t0loc s_Tloc].
   rewrite !map_length.
   set (Tg := horizon_guess (o_T oc) calls GbigT pvals).
   set (t0g := horizon_guess (o_t0 oc) calls Gt0 pvals).
